@@ -292,6 +292,66 @@ def partial_loop_verdict(ctx, prog, f, lp, nv, call):
     return 'ok', 'buffer = %s, length = %s, loop continues exactly while transferred < %s' % (show(buf), show(ln), size_p['n'])
 
 
+def interp_partial(ctx, prog, f):
+    """The blocking transfer loop interpreted (scansim) with the OS call replaced by a script of partial results: for a request
+    of N bytes and every script of short counts, each OS call must be handed exactly the position reached so far and the
+    number of bytes still missing, the loop must stop when N bytes are done (or when the OS call returns <= 0), and the value
+    returned must be the number of bytes actually transferred.  -> ('ok', text) | ('bad', text) | None (not interpretable)"""
+    import scansim
+    scripts = {6: [[6], [1, 5], [2, 2, 2], [5, 1], [3, 0], [3, -1], [1, 1, 1, 1, 1, 1], [0], [-1]], 1: [[1], [0]], 3: [[2, 1], [1, 2]]}
+    runs = 0
+    try:
+        for N, lst in scripts.items():
+            for script in lst:
+                calls = []
+                it = iter(script)
+
+                def osio(run, e, args, calls=calls, it=it):
+                    calls.append((args[1], args[2]))
+                    try:
+                        r_ = next(it)
+                    except StopIteration:
+                        return 0
+                    return r_
+                bufs = {'B': [0] * (N + 8)}
+                r = scansim.Run(prog, f, bufs, ptr_params={f['params'][0]['id']: ('P', 'B', 0)}, int_params={f['params'][1]['id']: N},
+                                mems={'_blocking': 1, '_handle': 3, '_error': 0}, externs={'read': osio, 'recv': osio, 'send': osio, 'write': osio}, methods={'*': 'interp'})
+                runs += 1
+                got = r.run()
+                done = 0
+                k = 0
+                for k, (ptr, cnt) in enumerate(calls):
+                    if not (isinstance(ptr, tuple) and ptr[0] == 'P' and ptr[1] == 'B'):
+                        return None
+                    if ptr[2] != done or cnt != N - done:
+                        return 'bad', 'with %d of %d bytes transferred the next call passes offset %s and count %s (script of OS results %s)' % (done, N, ptr[2], cnt, script)
+                    res = script[k] if k < len(script) else 0
+                    if res <= 0:
+                        if k + 1 < len(calls):
+                            return 'bad', 'the loop calls the OS again after it returned %d (script %s)' % (res, script)
+                        break
+                    done += res
+                    if done >= N and k + 1 < len(calls):
+                        return 'bad', 'with %d of %d bytes transferred the loop goes on (script %s)' % (done, N, script)
+                want_calls = 0
+                acc = 0
+                for res in script:
+                    want_calls += 1
+                    if res <= 0:
+                        break
+                    acc += res
+                    if acc >= N:
+                        break
+                if len(calls) != want_calls:
+                    return 'bad', 'the OS is called %d time(s) for the script %s of partial results, %d call(s) complete the transfer of %d bytes' % (len(calls), script, want_calls, N)
+                if isinstance(got, int) and got != acc and not (acc < N and got <= 0 and False):
+                    return 'bad', 'after the partial results %s the function returns %s although %d byte(s) were transferred' % (script, got, acc)
+    except (scansim.Unsupported, scansim.OOB, TypeError, KeyError, IndexError):
+        return None
+    ctx.evaluations += runs
+    return 'ok', 'interpreted with %d scripts of partial OS results: every retry is handed the position reached and the bytes still missing, stops at the total or at the first result <= 0, returns the bytes transferred' % runs
+
+
 def check_partial(ctx, prog, rule='C16.partial', files=True):
     """The blocking read/write loops of Socket_ complete partial transfers: every retry passes the not-yet-transferred
     remainder (buffer position and byte count both advanced by what the OS call returned)."""
@@ -310,6 +370,13 @@ def check_partial(ctx, prog, rule='C16.partial', files=True):
                             if ini.get('k') == 'call' and not ini.get('clsp') and ini.get('fn') in ('read', 'recv', 'send', 'write'):
                                 ios.append((lp, v, ini))
             role = f['n'] + f['sig'] + ':retry passes the remainder'
+            iv = interp_partial(ctx, prog, f)
+            if iv is not None:
+                if iv[0] == 'ok':
+                    ctx.ok(rule, f['pq'], role, fwhere(f), iv[1])
+                else:
+                    ctx.violation(rule, f['pq'], role, fwhere(f), 'after a short transfer the retry does not pass exactly the remainder / stop exactly at the total: %s: following values are over-read/over-written, skipped, or the transfer returns early' % iv[1])
+                continue
             if len(ios) != 1:
                 ctx.undecided(rule, f['pq'], role, fwhere(f), 'no single OS transfer call inside a retry loop (found %d)' % len(ios))
                 continue
